@@ -1845,7 +1845,14 @@ class Exec:
                     continue
                 cc = self.truth(c)
                 if not isinstance(cc, bool) and not isinstance(V.conc(cc), bool):
-                    raise Unsupported("while loop with symbolic condition (needs an invariant) at %s" % self.where(stmt, s1))
+                    # symbolic condition: accepted when the path condition already decides it (e.g. a counter computed from
+                    # mask entries that this path has fixed); the loop is then unrolled exactly as with a concrete condition
+                    czz = V.Bz(cc)
+                    can_t = self.ctx.feasible_strict(s1.pc + [czz])
+                    can_f = self.ctx.feasible_strict(s1.pc + [z3.Not(czz)])
+                    if can_t and can_f:
+                        raise Unsupported("while loop with symbolic condition (needs an invariant) at %s" % self.where(stmt, s1))
+                    c = bool(can_t)
                 for s2, b in self.branch(s1, c):
                     if not b:
                         if stmt.orelse:
